@@ -1,7 +1,8 @@
 (* C19 -- malformed archives fail cleanly (schema-level part; byte-level corruption is handled by
    zipfile / numpy / scipy and is exercised by the harness only). *)
-From Skv Require Import PyStr Json Node GetTree Unsafe Walk Fuel Cost TreeWf TreeIds.
+From Skv Require Import PyStr Json Node GetTree Unsafe Walk Fuel Cost CostFacts TreeWf TreeIds.
 From Coq Require Import Lia.
+From Gen Require Import Snapshot.
 
 (* The model is total on EVERY JSON value (Coq functions are), and its answer is never the fuel
    artefact as long as the schema is not nested deeper than the fuel: for any malformed schema the
@@ -31,3 +32,37 @@ Theorem C19_audit_cost_refuted :
   size (ladder 14) = 29%nat /\ N.of_nat (audit_visits (ladder 14)) = 32767%N.
 Proof. exact ladder_cost_14. Qed.
 Print Assumptions C19_audit_cost_refuted.
+
+(* ... for EVERY depth: the n-rung ladder has 2n+1 nodes and its audit makes 2^(n+1) - 1 node visits
+   (n < 50 only because audit_visits fixes the fuel at 100; ladder_visits is the fuel-generic statement) *)
+Theorem C19_audit_exponential :
+  forall n, (n < 50)%nat -> size (ladder n) = (2 * n + 1)%nat /\ audit_visits (ladder n) = (2 ^ (S n) - 1)%nat.
+Proof. exact audit_exponential. Qed.
+Print Assumptions C19_audit_exponential.
+
+Theorem C19_ladder_visits_any_fuel :
+  forall N n fuel path, (n <= N)%nat -> (2 * n < fuel)%nat -> (forall k, In (rid k) path -> (n < k)%nat) ->
+  visits_g (ladder N) fuel path (ladder n) = (2 ^ (S n) - 1)%nat.
+Proof. exact ladder_visits. Qed.
+Print Assumptions C19_ladder_visits_any_fuel.
+
+(* the ladder is what get_tree really builds from the corresponding schema (a = []; 10 times a = [a, a]) under
+   the registry extracted from /repo: 22 nodes (the innermost list keeps an empty-list leaf), 2047 audit visits *)
+Fixpoint ladder_json (n : nat) : json :=
+  let st (id : Z) (content : list json) :=
+    JObj [(s "__class__", JStr (s "list")); (s "__module__", JStr (s "builtins")); (s "__loader__", JStr (s "ListNode"));
+          (s "__id__", JInt id); (s "content", JArr content)] in
+  match n with
+  | O => st 1000%Z []
+  | S n' => st (1000 + Z.of_nat n)%Z [ladder_json n'; JObj [(s "__id__", JInt (1000 + Z.of_nat n')%Z)]]
+  end.
+Definition envS : env :=
+  {| e_reg := Snapshot.registry; e_cur := Snapshot.current; e_classes := Snapshot.classes;
+     e_unavailable := Snapshot.unavailable; e_members := []; e_resolve := [] |}.
+Theorem C19_ladder_is_what_get_tree_builds :
+  match get_tree 100 envS (JInt Snapshot.current) [] (SOne (s "root")) [] (ladder_json 10) with
+  | Ok (t, _) => size t = 22%nat /\ N.of_nat (audit_visits t) = 2047%N
+  | Raise _ => False
+  end.
+Proof. vm_compute. split; reflexivity. Qed.
+Print Assumptions C19_ladder_is_what_get_tree_builds.
